@@ -93,15 +93,23 @@ func (t *Teamserver) Start() {
 			return
 		}
 
-		t.Clients.Store(ClientID,
-			&Client{
-				Username:      "",
-				GlobalIP:      WebSocket.RemoteAddr().String(),
-				Connection:    WebSocket,
-				ClientVersion: "",
-				Packager:      packager.NewPackager(),
-				Authenticated: false,
-			})
+		var client = &Client{
+			Username:      "",
+			GlobalIP:      WebSocket.RemoteAddr().String(),
+			Connection:    WebSocket,
+			ClientVersion: "",
+			Packager:      packager.NewPackager(),
+			Authenticated: false,
+		}
+
+		// the id is random: one that another connection holds must not be taken over,
+		// or whatever is sent to that connection from now on goes to this one
+		for {
+			if _, taken := t.Clients.LoadOrStore(ClientID, client); !taken {
+				break
+			}
+			ClientID = utils.GenerateID(6)
+		}
 
 		// Handle connections in a new goroutine.
 		go t.handleRequest(ClientID)
